@@ -43,6 +43,7 @@ pub uninterp spec fn emit_ok(id: int, b: Seq<u8>) -> bool;       // C03: the byt
 pub uninterp spec fn may_reply(id: int) -> bool;                 // C01: a reply is allowed at all (never for FORGET / BATCH_FORGET)
 pub uninterp spec fn uniq(id: int) -> u64;                       // the request's `unique`
 // C01: "one complete message (length field equals the bytes emitted, unique equals the request's, error is zero or a negated errno)"
+#[verifier::opaque]
 pub open spec fn frame_ok(u: u64, b: Seq<u8>) -> bool {
     b.len() >= 16 && ({
         let h = <OutHeader as ByteValued>::sdecode(b.subrange(0, 16));
